@@ -116,7 +116,9 @@ func fuzzBatch(seed int64, n int, adversarial bool) *fuzzReport {
 					return nil, fmt.Errorf("too many")
 				}
 				return c.Result(), nil
-			})}
+			}),
+			// a function of the caller's that panics when called without arguments: the panic must come back as an error
+			xsel.WithFunction("boom", func(c xsel.Context, a ...xsel.Result) (xsel.Result, error) { return a[0], nil })}
 	}
 	tryExpr := func(text string, wellTyped bool) {
 		count(text)
@@ -273,6 +275,14 @@ func fuzzBatch(seed int64, n int, adversarial bool) *fuzzReport {
 	for _, t := range []string{"$z", "($z)", "$z + 1", "string($z)", "//*[. = $z]", "$z | $v", "count($z)", "$z/a", "$z[1]", "not($z)", "f($z)", "-$z", "$z = $z",
 		"$e", "$e/a", "$e[1]", "boolean($e)", "string($e)", "$e | $e", "sum($e)", "$u", "$p:z", "f($e, $z)", "concat($z, 'a')", "//*[$z]", "$v[$z]", "lang($z)"} {
 		tryExpr(t, false)
+	}
+	for _, t := range []string{"boom()", "boom() + 1", "//*[boom()]", "string(boom())", "boom(1)", "count(//*[boom() = 1])"} {
+		tryExpr(t, false)
+	}
+	// the name functions on every kind of first node, the root included (well-typed: never an internal failure)
+	for _, t := range []string{"name(/)", "local-name(/)", "namespace-uri(/)", "//*[name(..) = 'x']", "name(ancestor::node()[last()])", "local-name(//text()/..)",
+		"name(//comment())", "name(//processing-instruction())", "namespace-uri(//@*)", "name(//namespace::*)", "//*[local-name(/) = '']"} {
+		tryExpr(t, true)
 	}
 	// strings that are almost numerals: conversions are total and never fail internally
 	for _, lit := range []string{"-", " - ", ".", "-.", "+", "", " ", "--1", "1-", "-\t", "1.2.3", "٣", "- 1", "1e", "0x", "-0", ".-"} {
